@@ -123,7 +123,7 @@ pub fn explore(opts: &Opts) -> Explored {
         }
     }
     // broadcast operands with more elements than any block or lane width
-    for (a, b) in [(vec![2usize, 65], vec![65usize]), (vec![3, 100], vec![100]), (vec![2, 2, 70], vec![2, 70]), (vec![3, 129], vec![1, 129]), (vec![2, 33, 3], vec![33, 1])] {
+    for (a, b) in [(vec![2usize, 65], vec![65usize]), (vec![3, 100], vec![100]), (vec![2, 2, 70], vec![2, 70]), (vec![3, 129], vec![1, 129]), (vec![2, 33, 3], vec![33, 1]), (vec![2, 600, 3], vec![2, 1, 3]), (vec![2, 16, 8, 8], vec![2, 1, 8, 8]), (vec![2000, 3], vec![3])] {
         for op in [OpK::Add, OpK::Mul] {
             for uses in 1..=2usize {
                 let leaves = vec![lf(&a, 0, var), lf(&b, 1, var), lf(&b, 2, var)];
@@ -132,7 +132,8 @@ pub fn explore(opts: &Opts) -> Explored {
                     nodes.push(PNode { op: OpK::Mul, args: vec![1, 0] });
                     nodes.push(PNode { op: OpK::Add, args: vec![3, 4] });
                 }
-                items.push(Item { sub: format!("broadcast-long/{}", op.name()), prog: Program { leaves, nodes, retrack: Vec::new(), frozen: Vec::new(), dropped: Vec::new() }, mask: vec![true, true, false] });
+                // only the broadcast operand is tracked (the large one has thousands of elements)
+                items.push(Item { sub: format!("broadcast-long/{}", op.name()), prog: Program { leaves, nodes, retrack: Vec::new(), frozen: Vec::new(), dropped: Vec::new() }, mask: vec![false, true, false] });
             }
         }
     }
@@ -179,7 +180,7 @@ pub fn explore(opts: &Opts) -> Explored {
                 if !l.want(&case) {
                     continue;
                 }
-                let cfg = CheckCfg { sub: &it.sub, intermediates: true, values: false };
+                let cfg = CheckCfg { sub: &it.sub, intermediates: !it.sub.starts_with("broadcast-long"), values: false };
                 let v = check_program(p, &it.mask, &passes, &cfg, l, &case);
                 l.sample(&case);
                 // consequence for the optimizer: each parameter moves by its own gradient
